@@ -6,6 +6,7 @@
 //! {"panic": "..."}.
 
 mod mt;
+mod fields_gen;
 mod ops;
 
 use std::io::{BufRead, Write};
